@@ -24,6 +24,13 @@
 (*     must reproduce bytes and view (JSON equality) before allsorts is    *)
 (*     run on the bytes and the observation handed to Trace_FaultModel.    *)
 (*                                                                         *)
+(* t = "fill": buffer-filling content: for every form in which a Type 2    *)
+(*     operator of variable arity takes its operands and both interpreters *)
+(*     (CFF: 48 operands, CFF2: 513) the count that fills the stack        *)
+(*     (FaultModel!FillCount, lemma FillHolds); one FILL line each.  The   *)
+(*     harness builds its stack-filling glyphs from a table that must be   *)
+(*     these lines (JSON equality, both directions).                       *)
+(*                                                                         *)
 (* t = "val":  value class vectors (old bytes, file length, table length,  *)
 (*     references, implied value, bytes of the previous / next element ->  *)
 (*     new bytes)                                                          *)
@@ -181,6 +188,7 @@ Roots ==
   \cup {[t |-> "file-intact", kind |-> kd] : kd \in Kinds}
   \cup UNION {{[t |-> "file-root", kind |-> kd, first |-> f] : f \in FaultsOf(kd)} : kd \in Kinds}
   \cup {[t |-> "val-root", vc |-> vc] : vc \in ValueClasses}
+  \cup {[t |-> "fill-root", ip |-> ip] : ip \in Interpreters}
 
 Expand(r) ==
   CASE r.t = "gen-root"    -> {[t |-> "gen", seq |-> sq] : sq \in AbsTail(r.first)}
@@ -189,6 +197,7 @@ Expand(r) ==
                               \cup (IF r.first \in PairSet(r.kind)
                                     THEN {[t |-> "file", kind |-> r.kind, seq |-> <<r.first, g>>] : g \in PairSet(r.kind)} ELSE {})
     [] r.t = "val-root"    -> {x \in ValCases : x.vc = r.vc}
+    [] r.t = "fill-root"   -> {[t |-> "fill", ip |-> r.ip, f |-> f] : f \in OperatorForms(r.ip)}
 
 Init == c \in Roots /\ done = FALSE
 Next == ~done /\ done' = TRUE /\ c' \in Expand(c)
@@ -243,6 +252,10 @@ LemmasAndEmit ==
                          /\ PrintT(<<"VAL", ToJson([vc |-> c.vc, old |-> c.old, flen |-> c.flen, tlen |-> c.tlen, sv |-> c.sv, pv |-> c.pv, dv |-> c.dv,
                                                      pb |-> c.pb, nb |-> c.nb,
                                                      new |-> NewValue(c.vc, c.old, c.flen, c.tlen, c.sv, c.pv, c.dv, c.pb, c.nb)])>>)
+      [] c.t = "fill" -> LET lim == BufferLimit(c.ip)  k == FillCount(c.f, lim) IN
+                         /\ Assert(FillHolds(c.f, lim, k) /\ ~Overfills(lim, k + c.f.room) /\ Overfills(lim, lim + 1), "LemmaFill")
+                         /\ PrintT(<<"FILL", ToJson([ip |-> c.ip, op |-> c.f.op, m |-> c.f.m, rems |-> c.f.rems, room |-> c.f.room,
+                                                      limit |-> lim, count |-> k])>>)
       [] c.t = "file" ->
            LET base == BaseFile(c.kind)
                bs   == ApplySeq(base, c.seq)
